@@ -34,8 +34,8 @@ Ltac upd_cases u t := destruct (Nat.eq_dec u t) as [->|?]; [rewrite ?upd_same | 
 Lemma FL_step l s s' : FL s -> step l s = Some s' -> FL s'.
 Proof.
   intros HF H. destruct l as [t|g|d]; simpl in H.
-  2:{ inversion H; subst. exact HF. }
-  2:{ inversion H; subst. eapply FL_same; [reflexivity| |exact HF]. intro u. unfold pc_of, key_of. simpl.
+  2:{ inversion H; subst. apply FL_same with (s := s); [reflexivity| |exact HF]. intro u. unfold pc_of, key_of. simpl. auto. }
+  2:{ inversion H; subst. apply FL_same with (s := s); [reflexivity| |exact HF]. intro u. unfold pc_of, key_of. simpl.
       upd_cases u d; simpl; auto. }
   pose proof HF as [A B].
   (* steps that keep the flight table and every thread's leadership *)
@@ -43,12 +43,12 @@ Proof.
             leader_of (t_pc x') = leader_of (t_pc (ts s t)) ->
             (leader_of (t_pc (ts s t)) <> None -> k_key (t_op x') = k_key (t_op (ts s t))) ->
             FL (mk (wfirst s) dbv ca (flights s) (fres s) (next s) (open s) (upd (ts s) t x') dq rc tr)).
-  { intros x' tr dq rc ca dbv E K. eapply FL_same; [reflexivity| |exact HF]. intro u. unfold pc_of, key_of. simpl.
+  { intros x' tr dq rc ca dbv E K. apply FL_same with (s := s); [reflexivity| |exact HF]. intro u. unfold pc_of, key_of. simpl.
     upd_cases u t; auto. }
   assert (SameW : forall x' tr dq rc ca dbv k,
             leader_of (t_pc x') = None -> leader_of (t_pc (ts s t)) = None ->
             FL (mk (wfirst s) dbv ca (flights s) (fres s) (next s) (open s) (upd (fun u => mark k (ts s u)) t x') dq rc tr)).
-  { intros x' tr dq rc ca dbv k E E0. eapply FL_same; [reflexivity| |exact HF]. intro u. unfold pc_of, key_of. simpl.
+  { intros x' tr dq rc ca dbv k E E0. apply FL_same with (s := s); [reflexivity| |exact HF]. intro u. unfold pc_of, key_of. simpl.
     upd_cases u t; [rewrite E, E0; split; [reflexivity|congruence]|]. destruct (mark_leader k (ts s u)) as [M1 M2].
     rewrite M1, M2. auto. }
   destruct (t_pc (ts s t)) eqn:P.
@@ -58,7 +58,7 @@ Proof.
     + inversion H; subst. apply Same; simpl; congruence.
     + inversion H; subst. clear H. split.
       * intros u f Hl. unfold pc_of, key_of in *. simpl in *. revert Hl. upd_cases u t; simpl; intro Hl.
-        -- inversion Hl; subst. apply upd_same.
+        -- inversion Hl; subst. simpl. rewrite ?upd_same. reflexivity.
         -- pose proof (A u f Hl) as Au. unfold key_of in Au.
            rewrite upd_other; [assumption|]. intro E. rewrite E in Au. congruence.
       * intros u v f g H1 H2 Hk. unfold pc_of, key_of in *. simpl in *.
@@ -82,12 +82,12 @@ Proof.
     + intros u v f0 g H1 H2 Hk. unfold pc_of, key_of in *. simpl in *.
       revert H1 H2 Hk. upd_cases u t; upd_cases v t; simpl; intros H1 H2 Hk; try discriminate; auto. eapply B; eauto.
   - (* W0 *) destruct (wfirst s); destruct (gate_open _ _); try discriminate; inversion H; subst.
-    + apply SameW; simpl; auto. rewrite P. reflexivity.
+    + apply SameW; simpl; auto.
     + apply Same; simpl; auto.
   - (* W1 *) destruct (gate_open _ _); [|discriminate]. inversion H; subst. apply Same; simpl; auto.
   - (* W2 *) destruct (wfirst s); destruct (gate_open _ _); try discriminate; inversion H; subst.
     + apply Same; simpl; auto.
-    + apply SameW; simpl; auto. rewrite P. reflexivity.
+    + apply SameW; simpl; auto.
 Qed.
 
 Lemma FL_init wf scripts : FL (init wf scripts).
@@ -103,3 +103,170 @@ Proof.
   assert (L : forall p, querying p = true -> exists f, leader_of p = Some f) by (intros p; destruct p; simpl; try discriminate; eauto).
   destruct (L _ Ht) as [f Hf]. destruct (L _ Hu) as [g Hg]. eapply B; eauto.
 Qed.
+
+(* ---------- coherence under concurrency (write, then delete) ---------- *)
+Definition fresh_val (p : pc) : option nat :=
+  match p with RQ1 _ v false | RSet _ v false => Some v | _ => None end.
+
+Definition CO (s : state) : Prop :=
+  wfirst s = true /\
+  (* a reader that has read the database with no write since carries the current row *)
+  (forall u v, fresh_val (pc_of s u) = Some v -> v = db s (key_of s u)) /\
+  (* a cache entry is the current row, unless a writer has written and not yet deleted, or a reader stored
+     a value it had read before a later write *)
+  (forall k x, cache s k = Some x ->
+     x = db s k \/ raced s = true \/ exists u, wpending (pc_of s u) = true /\ key_of s u = k).
+
+Lemma CO_same s s' : wfirst s' = wfirst s -> db s' = db s -> cache s' = cache s -> raced s' = raced s ->
+  (forall u v, fresh_val (pc_of s' u) = Some v ->
+     (fresh_val (pc_of s u) = Some v /\ key_of s' u = key_of s u) \/ v = db s (key_of s' u)) ->
+  (forall u, wpending (pc_of s u) = true -> wpending (pc_of s' u) = true /\ key_of s' u = key_of s u) ->
+  CO s -> CO s'.
+Proof.
+  intros Hw Hd Hc Hr HR HP (W & R & C). split; [congruence|]. split.
+  - intros u v H. rewrite Hd. destruct (HR u v H) as [[H1 H2]|H1]; [rewrite H2; auto | assumption].
+  - intros k x H. rewrite Hc in H. rewrite Hd, Hr. destruct (C k x H) as [?|[?|(u & P & K)]]; auto.
+    right; right. exists u. destruct (HP u P) as [P' K']. split; [assumption|congruence].
+Qed.
+
+Lemma mark_props k x :
+  k_key (t_op (mark k x)) = k_key (t_op x) /\ wpending (t_pc (mark k x)) = wpending (t_pc x) /\
+  (forall v, fresh_val (t_pc (mark k x)) = Some v -> fresh_val (t_pc x) = Some v /\ k_key (t_op x) <> k).
+Proof.
+  unfold mark. destruct (Nat.eqb_spec (k_key (t_op x)) k) as [E|E].
+  - destruct (t_pc x) eqn:P; simpl; rewrite ?P; repeat split; auto; try discriminate.
+  - repeat split; auto.
+Qed.
+
+Lemma CO_step l s s' : CO s -> step l s = Some s' -> CO s'.
+Proof.
+  intros HC H. destruct l as [t|g|d]; simpl in H.
+  2:{ inversion H; subst. apply CO_same with (s := s); auto; intros; unfold pc_of, key_of in *; simpl in *; auto. }
+  2:{ inversion H; subst. apply CO_same with (s := s); auto; unfold pc_of, key_of; simpl.
+      - intros u v. upd_cases u d; simpl; auto.
+      - intros u. upd_cases u d; simpl; auto. }
+  pose proof HC as (W & R & C).
+  (* steps that change only thread t's control state *)
+  assert (Same : forall x' tr dq,
+            (forall v, fresh_val (t_pc x') = Some v ->
+               (fresh_val (t_pc (ts s t)) = Some v /\ k_key (t_op x') = k_key (t_op (ts s t))) \/ v = db s (k_key (t_op x'))) ->
+            (wpending (t_pc (ts s t)) = true -> wpending (t_pc x') = true /\ k_key (t_op x') = k_key (t_op (ts s t))) ->
+            CO (mk (wfirst s) (db s) (cache s) (flights s) (fres s) (next s) (open s) (upd (ts s) t x') dq (raced s) tr)).
+  { intros x' tr dq HR HP. apply CO_same with (s := s); auto; unfold pc_of, key_of; simpl.
+    - intros u v. upd_cases u t; auto.
+    - intros u. upd_cases u t; auto. }
+  destruct (t_pc (ts s t)) eqn:P.
+  - destruct (t_todo (ts s t)) as [|o rest]; [discriminate|]. inversion H; subst.
+    apply Same; simpl; [destruct (k_writer o); discriminate | discriminate].
+  - destruct (flights s (k_key (t_op (ts s t)))) as [f|].
+    + inversion H; subst. apply Same; simpl; discriminate.
+    + inversion H; subst. apply CO_same with (s := s); auto; unfold pc_of, key_of; simpl.
+      * intros u v. upd_cases u t; simpl; [discriminate|auto].
+      * intros u. upd_cases u t; simpl; [rewrite P; discriminate|auto].
+  - destruct (fres s f); [|discriminate]. inversion H; subst. apply Same; simpl; discriminate.
+  - destruct (t_cancel (ts s t)); [inversion H; subst; apply Same; simpl; discriminate|].
+    destruct (cache s (k_key (t_op (ts s t)))); inversion H; subst; apply Same; simpl; discriminate.
+  - destruct (t_cancel (ts s t)); [inversion H; subst; apply Same; simpl; discriminate|].
+    destruct (gate_open _ _); [|discriminate]. inversion H; subst. apply Same; simpl; [|discriminate].
+    intros v E. inversion E; subst. right. reflexivity.
+  - destruct (t_cancel (ts s t)); [inversion H; subst; apply Same; simpl; discriminate|].
+    destruct (gate_open _ _); [|discriminate]. inversion H; subst. apply Same; simpl; [|discriminate].
+    intros v0 E. left. split; [|reflexivity]. destruct d; [discriminate|assumption].
+  - (* RSet: the entry is written *)
+    destruct (gate_open _ _); [|discriminate]. inversion H; subst. clear H. split; [assumption|]. split.
+    + intros u v0. unfold pc_of, key_of. simpl. upd_cases u t; simpl; [discriminate|]. apply R.
+    + intros k x. simpl. unfold upd at 1. destruct (Nat.eqb_spec k (k_key (t_op (ts s t)))) as [->|Hk].
+      * intro E. inversion E; subst. destruct d; [right; left; apply orb_true_r|].
+        left. apply (R t x). unfold pc_of. rewrite P. reflexivity.
+      * intro E. destruct (C k x E) as [?|[Hr|(u & Pu & Ku)]]; auto.
+        -- right; left. rewrite Hr. reflexivity.
+        -- right; right. exists u. unfold pc_of, key_of in *. simpl. upd_cases u t; [rewrite P in Pu; discriminate|auto].
+  - inversion H; subst. apply CO_same with (s := s); auto; unfold pc_of, key_of; simpl.
+    + intros u v. upd_cases u t; simpl; [discriminate|auto].
+    + intros u. upd_cases u t; simpl; [rewrite P; discriminate|auto].
+  - (* W0: the database write *)
+    rewrite W in H. destruct (gate_open _ _); [|discriminate]. inversion H; subst. clear H.
+    set (k := k_key (t_op (ts s t))). split; [reflexivity|]. split.
+    + intros u v. unfold pc_of, key_of. simpl. upd_cases u t; simpl; [discriminate|].
+      intro E. destruct (mark_props k (ts s u)) as (K & _ & F). destruct (F v E) as [E' Hne].
+      rewrite K. rewrite upd_other by assumption. apply R. assumption.
+    + intros k' x E. simpl in *. destruct (Nat.eq_dec k' k) as [->|Hk].
+      * right; right. exists t. unfold pc_of, key_of. simpl. rewrite upd_same. simpl. auto.
+      * rewrite upd_other by assumption. destruct (C k' x E) as [?|[?|(u & Pu & Ku)]]; auto.
+        right; right. exists u. unfold pc_of, key_of in *. simpl. upd_cases u t; [rewrite P in Pu; discriminate|].
+        destruct (mark_props k (ts s u)) as (K & Wp & _). rewrite K, Wp. auto.
+  - destruct (gate_open _ _); [|discriminate]. inversion H; subst. apply Same; simpl; [discriminate|auto].
+  - (* W2: the delete *)
+    rewrite W in H. destruct (gate_open _ _); [|discriminate]. inversion H; subst. clear H.
+    set (k := k_key (t_op (ts s t))). split; [reflexivity|]. split.
+    + intros u v. unfold pc_of, key_of. simpl. upd_cases u t; simpl; [discriminate|]. apply R.
+    + intros k' x. simpl. unfold upd at 1. destruct (Nat.eqb_spec k' k) as [->|Hk]; [discriminate|].
+      intro E. destruct (C k' x E) as [?|[?|(u & Pu & Ku)]]; auto.
+      right; right. exists u. unfold pc_of, key_of in *. simpl. upd_cases u t; [exfalso; apply Hk; symmetry; exact Ku|auto].
+Qed.
+
+Lemma CO_init scripts : CO (init true scripts).
+Proof. split; [reflexivity|]. split; unfold pc_of; simpl; intros; discriminate. Qed.
+
+(* every schedule, any number of readers and writers: once no writer sits between its write and its
+   delete, and no reader has stored a value read before a later write, the cache holds nothing but
+   current rows *)
+Lemma coherent_concurrent scripts sched k :
+  let s := run step sched (init true scripts) in
+  raced s = false -> (forall u, wpending (pc_of s u) = true -> key_of s u <> k) ->
+  cache s k = None \/ cache s k = Some (db s k).
+Proof.
+  intros s Hr Hw.
+  assert (HC : CO s) by (apply (run_inv step CO); [intros; eapply CO_step; eauto | apply CO_init]).
+  destruct HC as (_ & _ & C). destruct (cache s k) as [x|] eqn:E; [|auto]. right.
+  destruct (C k x E) as [->|[?|(u & Pu & Ku)]]; [reflexivity | congruence | exfalso; eapply Hw; eauto].
+Qed.
+
+(* ... and a read from such a state answers the current row: its GET hits the current row or misses,
+   and after a miss the query reads the database *)
+Lemma read_after_quiescence s t f :
+  pc_of s t = RGet f -> t_cancel (ts s t) = false ->
+  (cache s (key_of s t) = None \/ cache s (key_of s t) = Some (db s (key_of s t))) ->
+  exists s', step (Thr t) s = Some s' /\
+    (pc_of s' t = REnd f (Some (db s (key_of s t))) \/ pc_of s' t = RQ0 f).
+Proof.
+  unfold pc_of, key_of. intros P Cn H. simpl. rewrite P, Cn.
+  destruct H as [E|E]; rewrite E; eexists; (split; [reflexivity|]); simpl; rewrite upd_same; simpl; auto.
+Qed.
+
+(* the ghost flag is raised only by a reader that stores after a write that followed its database read *)
+Lemma raced_only_by_straddle l s s' : step l s = Some s' -> raced s = false -> raced s' = true ->
+  exists t f v, l = Thr t /\ pc_of s t = RSet f v true.
+Proof.
+  intros H R0 R1. destruct l as [t|g|d]; simpl in H; try (inversion H; subst; simpl in R1; congruence).
+  destruct (t_pc (ts s t)) eqn:P;
+    repeat match type of H with
+           | match ?x with _ => _ end = _ => destruct x eqn:?
+           | (if ?x then _ else _) = _ => destruct x eqn:?
+           end; try discriminate; inversion H; subst; simpl in R1; try congruence.
+  rewrite R0 in R1. simpl in R1. subst. exists t, f, v. unfold pc_of. auto.
+Qed.
+
+(* ---------- the limits, with their witness schedules ---------- *)
+Definition reader (k ga gb gc : nat) : cop := mkcop false k 0 ga gb gc.
+Definition writer (k v ga gb gc : nat) : cop := mkcop true k v ga gb gc.
+
+(* the classic cache-aside race of the UNMODIFIED code: the reader queries (row 3), the writer writes 5 and
+   deletes, the reader stores 3.  Everybody has finished, the entry is stale, and raced is set. *)
+Lemma race_witness :
+  let scripts := fun t => match t with 0 => [writer 0 3 0 0 0] | 1 => [reader 0 0 7 0] | 2 => [writer 0 5 0 0 0] | _ => [] end in
+  let sched := [Thr 0; Thr 0; Thr 0; Thr 0; Thr 1; Thr 1; Thr 1; Thr 1; Thr 2; Thr 2; Thr 2; Thr 2;
+                Open 7; Thr 1; Thr 1; Thr 1] in
+  let s := run step sched (init true scripts) in
+  (forall t, pc_of s t = Idle) /\ cache s 0 = Some 3 /\ db s 0 = 5 /\ raced s = true.
+Proof. vm_compute. split; [intros [|[|[|t]]]; reflexivity | repeat split]. Qed.
+
+(* delete-then-write (NOT the order of ExecCtx): a reader that runs entirely between the two steps of the
+   writer leaves a stale entry although it stored exactly what it had just read (raced stays false) *)
+Lemma delete_first_witness :
+  let scripts := fun t => match t with 0 => [writer 0 3 0 0 0] | 1 => [writer 0 5 7 0 0] | 2 => [reader 0 0 0 0] | _ => [] end in
+  let sched := [Thr 0; Thr 0; Thr 0; Thr 0; Thr 1; Thr 1; Thr 2; Thr 2; Thr 2; Thr 2; Thr 2; Thr 2; Thr 2; Thr 2;
+                Open 7; Thr 1; Thr 1] in
+  let s := run step sched (init false scripts) in
+  (forall t, pc_of s t = Idle) /\ cache s 0 = Some 3 /\ db s 0 = 5 /\ raced s = false.
+Proof. vm_compute. split; [intros [|[|[|t]]]; reflexivity | repeat split]. Qed.
